@@ -101,7 +101,7 @@ class Fn:
 
 
 class Program:
-    def __init__(self, facts_dir, inline=True, level=1):
+    def __init__(self, facts_dir, inline=True, level=1, force=()):
         self.dir = facts_dir
         self.level = level
         self.crates = {}
@@ -148,7 +148,7 @@ class Program:
         self.inlined_helpers = []
         if inline:
             from .mirinline import inline_program
-            inline_program(self, level)
+            inline_program(self, level, force)
 
     # ---- refactor tolerance: private functions the rules name are found by ROLE when their name changed
     ROLES = [
@@ -1036,6 +1036,15 @@ def project(v, c):
     if c[0] == 'fld':
         if v[0] == 'optsome' and c[2] == '0':
             return ('ref', ('fld', ('var', v[1], 'Some'), 'core::option::Option', '0'))
+        if v[0] == 'optsome_idx' and c[2] == '0':
+            return ('ref', ('idx', v[1], v[2]))          # payload of slice.get(i) / get_mut(i): &slice[i]
+        if v[0] == 'cont' and c[2] == '0':
+            # (Try::branch(x) as Continue).0 is the Some / Ok payload of x
+            for var in ('Some', 'Ok'):
+                inner = project(v[1], ('var', var))
+                if inner is not None:
+                    return project(inner, c)
+            return None
         if v[0] == 'agg':
             for (n, e) in v[3]:
                 if n == c[2]:
@@ -1062,6 +1071,11 @@ def project(v, c):
             return v
         if v[0] == 'optref' and c[1] == 'Some':
             return ('optsome', v[1])
+        if v[0] == 'call' and c[1] == 'Some' and (v[1].endswith('<impl [T]>::get') or v[1].endswith('<impl [T]>::get_mut')) \
+                and len(v[2]) == 2 and v[2][0][0] == 'ref':
+            return ('optsome_idx', v[2][0][1], v[2][1])
+        if v[0] == 'call' and c[1] == 'Continue' and v[1].endswith('::branch') and len(v[2]) == 1:
+            return ('cont', v[2][0])
         return None
     return None
 
